@@ -1,6 +1,6 @@
 """C16 — the delta is at least as small as textbook greedy rsync (DESIGN §7 C16)."""
 from rules.common import *  # noqa: F401,F403
-from rules.scan import Scan, ENGINES, LOOKUPS, confirming_lookups
+from rules.scan import Scan, ENGINES, confirming_lookups, data_param, returns_block_index, lookup_data_arg, lookup_weak_arg
 from rules import C17
 from rules.C01 import norm_add, is_bs_term
 from terms import term_of, strip_payload
@@ -168,7 +168,8 @@ def r3(ctx, F, sc):
     pos = None
     for lb, lt in sc.lookups:
         c = callee(lt)
-        rd = sc.range_desc(lt['args'][2] if c != 'signature::SignatureTable::find_match_strong' else lt['args'][1])
+        da = lookup_data_arg(F, lt)
+        rd = sc.range_desc(da) if da is not None else None
         if rd and rd[1] == 'Range':
             st = strip_payload(rd[2]['start'])
             if st[0] == 'phi' and st[1] in pos_cands:
@@ -272,9 +273,10 @@ def r4(ctx, F, sc, conf):
         gtbl = {(o.kind, o.key, o.bb) for o in fl.origins(gt['args'][0])}
         dig = all(k == 'call' and key.endswith('::digest') for k, key, _ in go) and bool(go)
         for lb, lt in sc.lookups:
-            if callee(lt) == 'signature::SignatureTable::find_match_strong':
+            wa = lookup_weak_arg(F, lt)
+            if wa is None:
                 continue
-            lo = {(o.kind, o.key, o.bb) for o in fl.origins(lt['args'][1])}
+            lo = {(o.kind, o.key, o.bb) for o in fl.origins(wa)}
             ltbl = {(o.kind, o.key, o.bb) for o in fl.origins(lt['args'][0])}
             same = lo == go and ltbl == gtbl
             guarded = bool(fl.outcomes(gb).get('true')) and cfg.edges_guard(fl.outcomes(gb)['true'], lb)
